@@ -123,6 +123,22 @@ def fixed_cases(d):
     q = p.call(q, "where", p.bin("==", p.call(t, "field", "a"), [1, 2, 3]))
     q = p.call(q, "where", p.bin("==", p.call(t, "field", "b"), []))
     out.append({"k": "program", "prog": p.prog(dialect=d, fixed="exempt-and-arrays"), "tgt": q.i})
+    # a bare Interval (a builder object, not a datum) in every position that takes a value
+    iv = lambda p: p.new("Interval", hours=2, minutes=30)  # noqa: E731
+    p = P()
+    t = p.new("Table", "t1")
+    ins = p.call(p.call(p.call(Q, "into", t), "columns", "id", "a"), "insert", 1, iv(p))
+    ins = p.call(p.call(p.call(ins, "on_conflict", "id"), "do_update", "a", iv(p)), "do_update", "b", p.bin("+", p.call(t, "field", "b"), iv(p)))
+    out.append({"k": "program", "prog": p.prog(dialect=d, fixed="interval-upsert"), "tgt": ins.i})
+    p = P()
+    t = p.new("Table", "t1")
+    up = p.call(p.call(p.call(Q, "update", t), "set", "a", iv(p)), "where", p.bin(">", p.call(t, "field", "ts"), iv(p)))
+    out.append({"k": "program", "prog": p.prog(dialect=d, fixed="interval-update"), "tgt": up.i})
+    p = P()
+    t = p.new("Table", "t1")
+    q = p.call(p.call(Q, "from_", t), "select", iv(p), p.new("fn.Coalesce", p.call(t, "field", "a"), iv(p)), p.new("Column", "c", "INTERVAL", default=iv(p)) if False else 5)
+    q = p.call(q, "where", p.call(p.call(t, "field", "b"), "between", iv(p), 9))
+    out.append({"k": "program", "prog": p.prog(dialect=d, fixed="interval-select"), "tgt": q.i})
     # wrappers created with allow_parametrize=False stay inline in every position (sentinel values EXEMPT:* / 777001..)
     ex = lambda p, v, **k: p.new("ValueWrapper", v, allow_parametrize=False, **k)  # noqa: E731
     p = P()
@@ -374,6 +390,20 @@ def check_object(o, d, mon, label):
                     d, s3[:200], [repr(x)[:20] for x in v3][:8]), None)
         except Exception as e:
             return ("raises:%s" % type(e).__name__, "get_parameterized_sql() raised %r" % e, None)
+    if isinstance(o, reg["QueryBuilder"]):
+        # the caller's own, still empty Parameterizer with a placeholder factory, handed to get_parameterized_sql through the context
+        mine = reg["Parameterizer"](placeholder_factory=lambda i: "@@P%d@@" % i)
+        try:
+            s4, v4 = o.get_parameterized_sql(ctx.copy(parameterizer=mine))
+            mon.count("caller_parameterizer_checks")
+            import re as _re
+            marks = [int(m_) for m_ in _re.findall(r"@@P(\d+)@@", s4)]
+            if v4 is not mine.values or [repr(x) for x in v4] != [repr(x) for x in values] or sorted(marks) != list(range(1, len(values) + 1)) \
+                    or (values and any(t_.kind == "PARAM" for t_ in tokenize(_re.sub(r"@@P\d+@@", "0", s4), d))):
+                return ("caller-parameterizer-ignored", "get_parameterized_sql(ctx) with the caller's own (empty) Parameterizer and placeholder factory: "
+                        "placeholders %s, values %r, caller's list has %d entries; %r" % (marks[:8], [repr(x)[:20] for x in v4][:8], len(mine.values), s4[:240]), None)
+        except Exception as e:
+            return ("raises:%s" % type(e).__name__, "get_parameterized_sql with a caller-supplied Parameterizer raised %r" % e, None)
     if isinstance(o, reg["QueryBuilder"]):  # (hasattr would be answered by __getattr__ with a Field)
         try:
             s2, v2 = o.get_parameterized_sql(ctx)
